@@ -25,7 +25,7 @@ def model_check(pid, tier):
     for module, cfg in MC[pid][tier]:
         if not os.path.exists(os.path.join(vlib.SPEC, cfg)): continue
         t0 = time.time()
-        rc, out = vlib.tlc(module, cfg, workers=vlib.NCPU, heap="-Xmx16g", timeout=3000 if tier == "thorough" else 900, extra=("-coverage", "1"))
+        rc, out = vlib.tlc(module, cfg, workers=vlib.NCPU, heap="-Xmx16g", timeout=3000 if tier == "thorough" else 900)     # (no -coverage: its cost model takes minutes to set up on the deeply nested RunRule)
         p = vlib.parse_tlc(out)
         if p["error"] and not p["violated"]: raise vlib.Infra("TLC failed on %s: %s\n%s" % (cfg, p["error"], out[-2000:]))
         log("[%s] model checking %s: %s distinct states, %s generated, depth %s, %.0fs%s" % (pid, cfg, p["distinct"], p["states"], p["depth"], time.time() - t0,
